@@ -108,8 +108,7 @@ LeafCls(x, y) ==
    THEN (IF {x.t, y.t} \subseteq {"absent", "null"} THEN "eq" ELSE "must")      \* null versus absent member
    \* an unsigned value above MaxInt64 against the int64 with the same bit pattern ("wrap", a fact the harness supplies): ojg
    \* converts every integer to int64, nothing says what that means beyond its range: open.  Everything else is exact.
-   ELSE IF x.t = "int" /\ y.t = "int" /\ x # y /\ (("wrap" \in DOMAIN x /\ "dec" \in DOMAIN y /\ "wrap" \notin DOMAIN y /\ x.wrap = y.dec)
-                                                \/ ("wrap" \in DOMAIN y /\ "dec" \in DOMAIN x /\ "wrap" \notin DOMAIN x /\ y.wrap = x.dec)) THEN "may"
+   ELSE IF x.t = "int" /\ y.t = "int" /\ x # y /\ (("wrap" \in DOMAIN x /\ x.wrap = y) \/ ("wrap" \in DOMAIN y /\ y.wrap = x)) THEN "may"
    ELSE IF x.t = y.t THEN (IF x = y THEN "eq" ELSE "must")
    ELSE IF x.t = "int" /\ y.t = "flt" THEN NumCross(x, y)
    ELSE IF x.t = "flt" /\ y.t = "int" THEN NumCross(y, x)
